@@ -200,6 +200,9 @@ class Cell:
                 )
             if not include_center:
                 neighborhood.pop(self, None)
+            else:
+                # a cell without connections is still within any radius of itself
+                neighborhood[self] = self._agents
             return neighborhood
 
     def __getstate__(self):
